@@ -50,6 +50,23 @@ CHECKS['C16'] = dict(
     text='CLAUSE decided: the signed wrappers i128_shifted_div_mod_floor / i256_div_mod_floor and the wide rounding helpers, for every shift 0..=38 (thorough; quick: boundary shifts), every sign combination and all 8 modes (both via Some(mode) and the thread default): Some((q,r)) paths satisfy q*m + r = a*10^k (a*b) as polynomials with 0 <= r < m - including exact divisions; None paths imply that the quotient does not fit i128; the rounded helpers equal RoundSpec(mode, N/D) and have no panic edge. NOT decided: the schoolbook multiplication and Knuth-D division themselves (contract U is assumed and printed in the evidence).',
     note=TB + 'CONTRACT U for u128_mul_u128 / u256_idiv_u128 (assumed). Two defects found by this check (exact negative quotients; quot+1 overflow at i128::MAX) are repaired by fix: commits.')
 
+MODULO = ' Rounded results are compared as the term Rnd[thread](N/D) produced by the summaries R (proved in C05) and W (proved in C16 under contract U).'
+CHECKS['C02'] = dict(
+    category='proof', design_ref='DESIGN.md section 5 C02, Appendix A.3',
+    technique=ABSINT + '; modular composition through proved summaries; R-FWD',
+    text='All 361 scale pairs x {Mul, CheckedMul} plus the integer forms (9 types, both positions): each path is classified by the facts it established (operand zero / equal to one / general) and must return the oracle\'s result: (0,0), the other operand unchanged, the exact product term x*y at scale p+q, or Rnd[thread](x*y/10^(p+q-18)) at scale 18; failures only as overflow of x*y resp. of the rounded product; checked_mul has no panic edge and is None whenever p+q > 18.' + MODULO,
+    note=TB + 'contract U of the unsigned 256-bit kernels; dev-profile semantics (C20 covers profiles).')
+CHECKS['C03'] = dict(
+    category='proof', design_ref='DESIGN.md section 5 C03, Appendix A.4',
+    technique=ABSINT + '; modular composition through proved summaries; R-FWD',
+    text='Per scale pair (quick: 6x6 boundary pairs and 4 integer types; thorough: all 361 and 9 types) Div / CheckedDiv: zero divisor <=> DivisionByZero / None; 0/y = (0,0); x/1 = x unchanged; otherwise the returned (c,f) satisfies c*10^(18-f) = Rnd[thread](10^(18+q-p) x / y) through the equalities recorded by the normalisation loop, with f = 0 or c mod 10 != 0; the only other failure is the rounded quotient not fitting i128; checked_div has no panic edge.' + MODULO,
+    note=TB + 'contract U of the unsigned 256-bit kernels.')
+CHECKS['C04'] = dict(
+    category='other', design_ref='DESIGN.md section 5 C04, Appendix A.3/A.4',
+    technique=ABSINT + '; modular composition through proved summaries; R-FWD; shape rule for quantize',
+    text='Per (p,q,n) cell (quick: 5^3 boundary cells, thorough: all 19^3) and operand form (Decimal/Decimal, Decimal/int, int/Decimal, int/int): n > 18 is rejected; zero divisor panics; the result is the single term Rnd[thread](exact rational) at scale exactly n (exact product at p+q when n >= p+q; (0,0) for zero operands); failures only as the rounded value exceeding i128. quantize is div_rounded(q,0)*q by shape. Category is "other" rather than proof because one open known finding remains (int/int div_rounded accepts n > 18; the repository\'s own test relies on it).' + MODULO,
+    note=TB + 'contract U; the sticky-bit lemma of DESIGN.md (used to compare the repaired p > n+q overflow branch with the oracle).')
+
 NOT_APPLICABLE = {
     'C07': 'Display/parse round trip is a value-level property of run-time digit strings across two algorithms (core::fmt and a byte parser); no structural clause that is both necessary and checkable without executing or symbolically solving; see DESIGN.md section 7.',
     'C12': 'Bit-exact float rounding of Decimal -> f64/f32 over 2^127 x 19 inputs: no sound static abstract domain in reach relates the produced bit pattern to the nearest float; see DESIGN.md section 7.',
